@@ -167,9 +167,23 @@ WRAPPERS = ("fault", "recalc")
 
 
 def unwrap(tree):
-    """the formula under fault / recalculation wrappers (they never change the dimension)"""
+    """the formula whose dimension the wrapped tree has: rejected requests change nothing; a
+    VALID unit assignment to an operand before recalculate() (["recalc", sub, [[i, "assign",
+    units_json, string], ..]]) replaces that operand's unit"""
     while tree[0] in WRAPPERS:
-        tree = tree[1]
+        if tree[0] == "recalc" and any(x[1] == "assign" for x in tree[2]):
+            sub = list(tree[1])
+            kids = [sub[1]] if sub[0] == "powc" else list(sub[2])
+            for x in tree[2]:
+                if x[1] == "assign" and x[0] < len(kids):
+                    kids[x[0]] = ["leaf", x[2], x[3]]
+            if sub[0] == "powc":
+                sub[1] = kids[0]
+            else:
+                sub[2] = kids
+            tree = sub
+        else:
+            tree = tree[1]
     return tree
 
 
@@ -275,9 +289,13 @@ class Builder:
         if tag == "recalc":
             obj = self.build(tree[1])
             ops = self.kids.get(id(obj), [])
-            for ci, kind, arg in tree[2]:
+            for x in tree[2]:
+                ci, kind = x[0], x[1]
                 if ci < len(ops) and hasattr(ops[ci], "unit"):
-                    self.request(ops[ci], kind, arg)
+                    if kind == "assign":
+                        ops[ci].unit = x[3]          # a valid assignment: the result follows
+                    else:
+                        self.request(ops[ci], kind, x[2])
             obj.recalculate()
             return obj
         if tag == "powc":
@@ -341,8 +359,9 @@ def pretty_tree(tree):
     if tag == "fault":
         return "{}<rejected {} {!r}>".format(pretty_tree(tree[1]), tree[2], tree[3])
     if tag == "recalc":
-        return "recalculate({}; operands first sent {})".format(pretty_tree(tree[1]), ", ".join(
-            "#{} rejected {} {!r}".format(*x) for x in tree[2]) or "nothing")
+        return "recalculate({}; before it, operand {})".format(pretty_tree(tree[1]), ", ".join(
+            ("#{0}.unit = {3!r}" if x[1] == "assign" else "#{} <rejected {} {!r}>").format(*x)
+            for x in tree[2]) or "nothing")
     if tag == "powc":
         k = F(tree[2], tree[3])
         return "({})**({})".format(pretty_tree(tree[1]), k if len(tree) < 5 or not tree[4]
@@ -705,7 +724,7 @@ def tree_ops(tree, acc=None):
     elif tree[0] == "recalc":
         acc["recalculate"] += 1
         for x in tree[2]:
-            acc["fault:late-" + x[1]] += 1
+            acc["recalculate:valid-reassignment" if x[1] == "assign" else "fault:late-" + x[1]] += 1
         tree_ops(tree[1], acc)
     elif tree[0] == "powc":
         acc["pow"] += 1
@@ -731,6 +750,10 @@ def tree_syms(tree, acc=None):
     acc = acc if acc is not None else []
     if tree[0] in WRAPPERS:
         tree_syms(tree[1], acc)
+        if tree[0] == "recalc":
+            for x in tree[2]:
+                if x[1] == "assign":
+                    tree_syms(["leaf", x[2]], acc)
     elif tree[0] == "leaf":
         for k, _, _ in tree[1]:
             if k not in acc:
